@@ -60,6 +60,7 @@ def finish(prop, tier, seed, mod, results, herrs, wall, known, extra_lines=()):
         known_hits.update(r.get("known_hits", {}))
     rc = 0
     lines = []
+    unconfirmed = []
     viols.sort(key=lambda r: (0 if r.get("minimized") else 1, r["family"], r["idx"]))
     for r in viols[:3]:
         m = r.get("minimized") or r
@@ -70,13 +71,39 @@ def finish(prop, tier, seed, mod, results, herrs, wall, known, extra_lines=()):
             # interleaving the harness does not decide; the worker already re-ran it 5 times
             print(f"[dst] observational run did not reproduce on replay (its reproduction rate is in the message)")
             ok = False
+        elif ok is None and r.get("minimized"):
+            # seen in the search AND seen again when the worker re-ran the same choice trace in a
+            # second isolated child, but not in a fresh interpreter: the failure depends on process
+            # state the simulator does not own (object addresses recycled by the allocator, say).
+            # It happened on the real code twice, so it is reported; the replay file says so.
+            print("[dst] NOTE: the violation was re-observed in a second isolated run of the same choice trace but did not "
+                  "reproduce in a fresh interpreter (address- or allocator-dependent behaviour); replay may need several attempts")
+            try:
+                doc = json.load(open(path))
+                doc["reproduced_in_fresh_interpreter"] = False
+                json.dump(doc, open(path, "w"), indent=1, default=str)
+            except Exception:  # noqa: BLE001
+                pass
+            ok = False
+        elif ok is None and lines:
+            # a further violating run (found by another worker, never re-run) that does not
+            # reproduce: not reported; the confirmed one above stands
+            print(f"[dst] (an additional violating run, index {r['idx']}, did not reproduce on replay and is not reported)")
+            try:
+                os.remove(path)
+            except OSError:
+                pass
+            continue
         elif ok is None:
-            print(f"HARNESS-ERROR property={prop}: replay {path} did not reproduce in a fresh interpreter")
-            return 2
+            unconfirmed.append(path)
+            continue
         lines.append(f"VIOLATION property={prop} replay={path}")
         print(f"[dst] violation check={m['violation']['check']}: {m['violation']['message']}")
         print(f"[dst] minimised to {len(m['values'])} choices from {len(r['values'])} ({r.get('shrink_runs', 0)} shrink runs); digest match on replay: {ok}")
         rc = 1
+    if unconfirmed and not lines:
+        print(f"HARNESS-ERROR property={prop}: violating run(s) did not reproduce on replay: {unconfirmed[:3]}")
+        return 2
     for k in known:
         if k["property"] == prop:
             key = f"{k['check']} {k['sig']}"
@@ -161,7 +188,7 @@ def cmd_selftest(props, n=24):
     for prop in props:
         outs = []
         for hs, w in (("0", 8), ("4242", 1 if n <= 16 else 3), ("99", 16)):
-            e = dict(os.environ, PYTHONHASHSEED=hs)
+            e = dict(os.environ, PYTHONHASHSEED=hs, VERIF_NO_REEXEC="1")
             p = subprocess.run(
                 [sys.executable, os.path.join(env.VERIF_DIR, "bin", "check"), "digests", prop, str(n), str(w)],
                 capture_output=True, text=True, env=e, timeout=3000,
@@ -187,12 +214,28 @@ def cmd_selftest(props, n=24):
     return rc
 
 
+def hashseed_for(seed: int) -> str:
+    return str(1 + (int(seed) * 7919) % 4093)
+
+
+def ensure_hashseed(seed, argv):
+    """String hashing is a source of nondeterminism (set iteration order): the interpreter is
+    re-executed under a PYTHONHASHSEED derived from VERIF_SEED so that one seed is one
+    execution.  The self-test overrides it on purpose (VERIF_NO_REEXEC)."""
+    want = hashseed_for(seed)
+    if os.environ.get("VERIF_NO_REEXEC") or os.environ.get("PYTHONHASHSEED") == want:
+        return
+    e = dict(os.environ, PYTHONHASHSEED=want)
+    os.execve(sys.executable, [sys.executable, os.path.join(env.VERIF_DIR, "bin", "check")] + list(argv), e)
+
+
 def main(argv):
     env.pin()
     if not argv:
         print(__doc__)
         return 2
     if argv[0] == "--replay":
+        ensure_hashseed(json.load(open(argv[1]))["verif_seed"], argv)
         return cmd_replay(argv[1], quiet="--quiet" in argv)
     if argv[0] == "digests":
         return cmd_digests(argv[1], int(argv[2]), int(argv[3]), argv[4] if len(argv) > 4 else "quick")
@@ -203,6 +246,7 @@ def main(argv):
         ns = [int(a) for a in argv[1:] if a.isdigit()]
         return cmd_selftest(props, ns[0] if ns else 24)
     prop = argv[0]
+    ensure_hashseed(_seed(), argv)
     tier = argv[1] if len(argv) > 1 else os.environ.get("VERIF_TIER", "quick")
     if tier not in ("quick", "thorough"):
         tier = "quick"
